@@ -1,10 +1,10 @@
 (* C07 — Every produced ASCII string is exactly one line; flattening loses no content.
-   Only statements; each closed by [exact] of a lemma from Proofs/FlattenProofs.v.
+   Only statements; each closed by [exact] of a lemma from Proofs/FlattenProofs.v / FlattenBytes.v.
    Model: Model/Flatten.v (strip_lb = stripLineBreaks, strip_lb_svg = stripLineBreaksSvg,
    one_line / one_lines = the final singleLines pass of BOTH encoders).  Spec: Spec/OneLine.v
    (nonws = the non-white-space characters in order, frame / unframe = the wire). *)
 From RP Require Import Lib.Base Lib.Strings Lib.TrimSpace Model.Flatten Spec.OneLine
-  Proofs.FlattenUtf8 Proofs.FlattenProofs.
+  Proofs.FlattenUtf8 Proofs.FlattenProofs Proofs.FlattenBytes.
 From RP Require Import Model.MsgIn Model.EncIn Model.MsgOut Model.EncOut Proofs.FlattenEncoders.
 Open Scope Z_scope.
 Open Scope list_scope.
@@ -96,6 +96,19 @@ Theorem c07_flatten_keeps_joins : forall s,
   /\ (joins_clean (map svg_part (split_on 10 s)) -> nonws (strip_lb_svg s) = nonws s).
 Proof. exact (fun s => conj (strip_lb_keeps s) (strip_lb_svg_keeps s)). Qed.
 Print Assumptions c07_flatten_keeps_joins.
+
+(* for EVERY byte string, well-formed or not: no byte outside the encodings of white-space characters
+   is lost, added, changed or reordered (the clause Run/C07.v judges on ill-formed input, where
+   "character" has no unambiguous meaning) *)
+Theorem c07_flatten_keeps_bytes : forall s,
+  hard_bytes (one_line (strip_lb s)) = hard_bytes s /\ hard_bytes (one_line (strip_lb_svg s)) = hard_bytes s.
+Proof. exact flatten_keeps_bytes. Qed.
+Print Assumptions c07_flatten_keeps_bytes.
+
+(* TrimSpace alone, likewise *)
+Theorem c07_trim_space_keeps_bytes : forall s, hard_bytes (trim_space s) = hard_bytes s.
+Proof. exact hard_trim_space. Qed.
+Print Assumptions c07_trim_space_keeps_bytes.
 
 (* the linear-time twins the driver executes (List.rev replaced by rev_append) are the functions
    the theorems above speak about *)
